@@ -431,7 +431,7 @@ func c11open(p *Prog, r *Report) {
 					continue
 				}
 				f := calleeFunc(c.Common())
-				if f == nil || f.Pkg() == nil || !strings.Contains(f.Pkg().Path(), "dgraph-io/badger") || f.Name() != "Open" || len(c.Call.Args) != 1 {
+				if f == nil || f.Pkg() == nil || !strings.HasSuffix(f.Pkg().Path(), "/badger") || f.Name() != "Open" || len(c.Call.Args) != 1 {
 					continue
 				}
 				n++
